@@ -236,6 +236,32 @@ Proof.
   apply orb_true_iff in H. exact H.
 Qed.
 
+(* (6) the start handshake: while the run thread is between its wake-up and
+   raising _runflag (START being notified, STARTED being written) the command
+   thread is never idle - start() has not returned yet.  So a stop() issued
+   "as soon as start() has returned" finds the run state STARTED and the run
+   loop entered; it cannot be overwritten by the run thread's STARTED.  (Only
+   with strict waits: a START subscriber that blocks for more than the one
+   second start() is prepared to wait breaks it, see [T_any_loose].) *)
+Definition handshake_ok (s : ostate) : bool :=
+  negb (mpc_idle (o_m s)
+        && match o_w s with WFireStart | WSetStarted | WSetFlag => true | _ => false end).
+
+Theorem start_returns_after_started s :
+  oreach false pol_any s -> handshake_ok s = true.
+Proof.
+  intros R.
+  apply (closed_invariant (succs false pol_any) oinit T_any handshake_ok); try exact R;
+    vm_compute; reflexivity.
+Qed.
+
+(* with a START subscriber slower than one second: start() gives up and returns
+   while the run thread is still notifying START (run state STARTING) *)
+Definition sched_start_gives_up : list lab :=
+  [LI OStart] ++ rep_lab 10 (LM 0)            (* MSt0 .. MSt7: now waiting for _runflag *)
+  ++ rep_lab 4 (LW 0)                          (* wakes up, checks, START being notified *)
+  ++ [LM 0; LM 0].                             (* gives up after one second, returns *)
+
 (* ------------------------------------------------------------------ *)
 (** * The known races, with explicit schedules *)
 
@@ -316,6 +342,15 @@ Proof.
   exists s. split.
   - eapply run_sched_reach; [apply reach_start|exact E].
   - vm_compute in E. injection E as <-. vm_compute. auto 10.
+Qed.
+
+Theorem start_handshake_loose_refuted :
+  exists s, oreach true pol_any s /\ handshake_ok s = false /\ o_rs s = RStarting /\ o_w s = WSetStarted.
+Proof.
+  destruct (run_sched true oinit sched_start_gives_up) as [s|] eqn:E; [|vm_compute in E; discriminate].
+  exists s. split.
+  - eapply run_sched_reach; [apply reach_start|exact E].
+  - vm_compute in E. injection E as <-. vm_compute. auto.
 Qed.
 
 (* the schedules are inside the unsafe windows, as they must be *)
